@@ -352,8 +352,18 @@ func (ug *urlGen) srcset(classes []string, desc, carrier string) string {
 	parts := []string{}
 	ug.commaLeaf = ug.g.rng.Intn(3) == 0
 	defer func() { ug.commaLeaf = false }()
+	first := ""
 	for i, cls := range classes {
-		c := ug.ref(cls, carrier)
+		c := ""
+		if i > 0 && cls == classes[0] && ug.g.rng.Intn(3) == 0 {
+			// one file named twice (for two densities / widths)
+			c = first
+		} else {
+			c = ug.ref(cls, carrier)
+		}
+		if i == 0 {
+			first = c
+		}
 		switch desc {
 		case "x":
 			c += " " + urlDescX[i]
@@ -401,6 +411,9 @@ func (ug *urlGen) carrierHTML(carrier string, classes []string, desc string) str
 		return `<img src="` + ug.filler(".png") + `" srcset="` + ug.srcset(classes, desc, carrier) + `" alt="` + w(2) + `">`
 	case "picture_source_srcset":
 		return `<picture><source srcset="` + ug.srcset(classes, desc, carrier) + `" media="(min-width: 600px)"><img src="` + ug.filler(".png") + `" alt="` + w(2) + `"></picture>`
+	case "picture_img":
+		// the fallback image of a picture carries the tested reference
+		return `<picture><source srcset="` + ug.filler(".webp") + `" type="image/webp"><img src="` + r1() + `" alt="` + w(2) + `"></picture>`
 	case "video_src":
 		return `<video controls src="` + r1() + `"></video>`
 	case "video_poster":
@@ -444,7 +457,7 @@ func runURL(c Case, e *env) []Event {
 		block = "<section><div>" + block + "</div></section>"
 	case 3:
 		switch carrier { // phrasing content only: inline in a paragraph of its own
-		case "img_src", "img_srcset", "picture_source_srcset", "video_src", "video_poster", "source_src", "track_src":
+		case "img_src", "img_srcset", "picture_source_srcset", "picture_img", "video_src", "video_poster", "source_src", "track_src":
 			block = "<p>" + g.words(22) + " " + block + " " + g.words(22) + "</p>"
 		}
 	}
